@@ -337,6 +337,8 @@ func (fx *FX) evalExpr(env *Env, e Expr) Val {
 					srt = SInt
 				case "bool":
 					srt = SBool
+				case "Bytes":
+					srt = SBytes
 				default:
 					srt = t.Sorts[i]
 				}
@@ -736,6 +738,9 @@ func (fx *FX) evalCall(env *Env, t *ECall) Val {
 	case "ite":
 		c := fx.evalBool(env, t.Args[0])
 		a, b := arg(1), arg(2)
+		if a.T.Sort == litSort && b.T.Sort == litSort {
+			a = coerce(a, SBV64, true)
+		}
 		if a.T.Sort == litSort {
 			a = coerce(a, b.T.Sort, b.T.Signed)
 		}
